@@ -191,7 +191,10 @@ def run(ctx):
                     "hand model SqiModel.ThetaChain tied by hook-trace correspondence (tools/harness/drv_chain.c)",
                     "library routines used to *build* Kani kernels (represent_integer_non_diag, endomorphism_application_even_basis, weil)",
                     "hooks: SQISIGN_VERIF_TRACE calls in theta_chain_comput_strategy(_faster_no_eval), theta_chain_comput_rec/balanced"]
-    vlib.proof_stage(ctx, ["SqiProps.C12"], searcher=lambda: search(ctx), extra_targets=("driver",))
+    mods = ["SqiProps.C12"]
+    if os.path.exists(os.path.join(vlib.LEAN, "SqiProps", "C12F.lean")):
+        mods.append("SqiProps.C12F")
+    vlib.proof_stage(ctx, mods, searcher=lambda: search(ctx), extra_targets=("driver",))
     ctx.lake(["driver"])
     levels = (1, 3, 5)
     for l in levels:
